@@ -66,6 +66,12 @@ func KitchenSink() []*Doc {
 		}
 		d.Paths["/pets/mine"] = &PathItem{Get: &Operation{Security: &[]map[string][]string{{"bearer": {}}}, Responses: map[string]*Response{"200": {Description: Str("ok"), Content: JSONContent(&Schema{Type: "array", Items: str})}}}}
 		d.Paths["/"] = &PathItem{Get: MinimalOp()}
+		// parameters that are arrays of arrays (one inner array per occurrence)
+		d.Paths["/matrix"] = &PathItem{Get: &Operation{OperationID: "getMatrix", Parameters: []*Parameter{
+			{Name: "rows", In: "query", Schema: &Schema{Type: "array", Items: &Schema{Type: "array", Items: &Schema{Type: "integer"}}}},
+			{Name: "names", In: "query", Required: true, Schema: &Schema{Type: "array", Items: &Schema{Type: "array", Items: str}}},
+			{Name: "X-Labels", In: "header", Schema: &Schema{Type: "array", Items: &Schema{Type: "array", Items: str}}}},
+			Responses: EmptyResponses()}}
 		d.Paths["/files/"] = &PathItem{Get: MinimalOp()}
 		// an array of arrays as a component (rows may be nil), a redirect with a Location header
 		d.Components.Schemas["Grid"] = &Schema{Type: "array", Items: &Schema{Type: "array", Items: &Schema{Type: "integer", Format: "int64"}}}
